@@ -2,6 +2,8 @@ import Req.Driver.Proto
 import Req.Pool.Dispatch
 import Req.Pool.Tls
 import Req.Pool.TlsFamily
+import Req.Pool.TlsPaths
+import Req.Pool.ProxyDispatch
 /-! Driver lanes of C12.
 
 * `c12route <force> <h3> <allowHTTP> <dialTLS> <handshake> <protos> <scheme> <reqH1> <alpn>
@@ -181,6 +183,100 @@ def laneFam : List String → String
     | _, _, _, _, _, _, _, _ => "bad-op"
   | _ => "bad-op"
 
+def pPath : String → Option DialPath
+  | "direct" => some .h1Direct
+  | "tunnel" => some .h1Tunnel
+  | "h2own" => some .h2Own
+  | "quic" => some .h3Quic
+  | _ => none
+
+def pHs : String → Option (Option HsKind)
+  | "-" => some none
+  | "fp" => some (some .fingerprint)
+  | "user" => some (some .user)
+  | _ => none
+
+def sGiven : Option Given → String
+  | none => "-"
+  | some (.bare _) => "bare"
+  | some (.withPort _) => "port"
+
+def fpCopiedFull : List FpField := [.serverName, .rootCAs, .insecureSkipVerify, .certificates, .nextProtos]
+
+/-- `c12path <path> <dialTLS> <hs> <trustOK> <onlyH1> <force> <host> <issuer> <names> <acceptableCAs>
+<serverALPN> <ops>`: a NEW connection on dial path `<path>` of a client with the hooks
+`<dialTLS>`/`<hs>` after the TLS setters `<ops>`: who governs the handshake, what the hook is
+handed, and — when no user function governs — the SNI, the offered ALPN list (under the
+fingerprint the preset's list), the verdict against a server certificate of CA
+`<issuer>` for `<names>`, the client certificate presented, and whether `dialConn` hands the
+connection to HTTP/2. A user function (the lane's: verifies against the name it is given,
+trusts per `<trustOK>`, offers no ALPN) only yields its verdict. -/
+def lanePathWith (copied : List FpField) : List String → String
+  | [path, dial, hs, trust, onlyH1, force, host, issuer, names, acc, srvAlpn, ops] =>
+    match pPath path, pBool dial, pHs hs, pBool trust, pBool onlyH1, pForce force, host.toNat?, issuer.toNat?,
+      pDigits names, pDigits acc, pAlpns srvAlpn, pOps ops with
+    | some p, some d, some hk, some tr, some o, some f, some h, some iss, some ns, some acc, some sa, some os =>
+      let hooks : Hooks := ⟨d, hk⟩
+      let read := run (some initialCfg) os
+      match governs hooks p with
+      | .userDialTLS => s!"gov=dial given={sGiven (dialTLSGiven h p)} accept={if tr && ns.contains h then 1 else 0}"
+      | .userHandshake =>
+        let g := handshakeGiven h p
+        let a := match g with | some g => hookAccepts tr ns g | none => false
+        s!"gov=hs given={sGiven g} accept={if a then 1 else 0}"
+      | gov =>
+        match pathCfg copied hooks p o h read with
+        | none => "no-config"
+        | some eff =>
+          let fp := gov == .fingerprint
+          let neg := negotiate sa eff.protos
+          let ok := acceptsStd eff.toVerifyCfg ⟨iss, ns⟩ && neg.isSome
+          let cert := if ok then (match presented eff.certs acc with | some c => toString c | none => "-") else "-"
+          let dcfg : Cfg := ⟨f, false, false, d, hk.isSome, []⟩
+          let hand :=
+            if !ok then "-" else
+            match neg with
+            | none => "-"
+            | some pr =>
+              match p with
+              | .h2Own => if pr = some .h2 then "h2" else "no-h2"
+              | .h3Quic => "-"
+              | _ => if handsOff dcfg (some ⟨pr, true⟩) then "1" else "0"
+          let given := if fp then sGiven (handshakeGiven h p) else "-"
+          s!"gov={if fp then "fp" else "cfg"} given={given} sni={eff.serverName} alpn={sAlpns eff.protos} accept={if ok then 1 else 0} cert={cert} handoff={hand}"
+    | _, _, _, _, _, _, _, _, _, _, _, _ => "bad-op"
+  | _ => "bad-op"
+
+def lanePath := lanePathWith fpCopiedFull
+/-- the fingerprint closure of the un-repaired tree (used only to recognise the known finding) -/
+def lanePathU := lanePathWith fpCopiedUnpatched
+
+def pProxy (s : String) : Option (Option ProxyNet) :=
+  match s.splitOn ":" with
+  | ["-"] => some none
+  | [k, up, tun] => do
+    let k ← (match k with | "http" => some ProxyKind.http | "socks5" => some ProxyKind.socks5 | _ => none)
+    pure (some ⟨k, ← pBool up, ← pBool tun⟩)
+  | _ => none
+
+/-- `c12proxy <proxy> <the 17 arguments of c12route>` → `<route> via=<0|1>` (`Dispatch.routeP`,
+`viaProxy`); `<proxy>` = `-` | `http:<up>:<tunnel>` | `socks5:<up>:<tunnel>`. -/
+def laneProxy : List String → String
+  | px :: rest =>
+    match pProxy px, parseRoute rest with
+    | some px, some (cfg, req, net) =>
+      s!"{sRoute (routeP px cfg req net)} via={if viaProxy px cfg req net then 1 else 0}"
+    | _, _ => "bad-op"
+  | _ => "bad-op"
+
+/-- `c12offer <force> <reqH1> <protos>` → the ALPN list offered (`Dispatch.offered`). -/
+def laneOffer : List String → String
+  | [force, reqH1, protos] =>
+    match pForce force, pBool reqH1, pAlpns protos with
+    | some f, some r, some ps => sAlpns (offered ⟨f, false, false, false, false, ps⟩ ⟨.https, r⟩)
+    | _, _, _ => "bad-op"
+  | _ => "bad-op"
+
 def pSetting : String → Option Setting
   | "f1" => some .forceH1
   | "f2" => some .forceH2
@@ -217,7 +313,11 @@ def lanes : List (String × (List String → String)) := [
   ("c12route", laneRoute),
   ("c12routeu", laneRouteU),
   ("c12cfg", laneCfg),
-  ("c12fam", laneFam)
+  ("c12fam", laneFam),
+  ("c12path", lanePath),
+  ("c12pathu", lanePathU),
+  ("c12proxy", laneProxy),
+  ("c12offer", laneOffer)
 ]
 
 end Req.Driver.L.C12
